@@ -20,19 +20,21 @@ DATA_DEPENDENT_HEADER = {'transpose', 'pivot', 'recast', 'unpackdict(sample)', '
                          'fromdicts(list)'}
 NO_HEADER = {'values', 'values(multi)', 'data', 'dicts', 'records', 'namedtuples', 'flatten'}
 # addcolumn: the 3 column values still make 3 rows (padded with missing); transpose: the 3 remaining fields become rows
-UNARY_ROWS = {'aggregate(key=None)': 1, 'pushheader': 1, 'transpose': 3, 'flatten': 0, 'addcolumn': 3}
+UNARY_ROWS = {'aggregate(key=None)': 1, 'aggregate(key=None,sum)': 1, 'aggregate(key=None,list)': 1, 'pushheader': 1, 'transpose': 3, 'flatten': 0, 'addcolumn': 3}
 # skip(1) skips the header row itself: nothing at all is left of a header-only table, by definition
 EMPTY_OK = {'skip'}
 COUNT_FREE = {'merge', 'unflatten', 'fromcolumns', 'fromdicts(list)', 'facet'}
 
 
 def base_name(n):
-    return n.split('(')[0] if n not in ('aggregate(key=None)',) else n
+    return n.split('(')[0]
 
 
 def run_position(e, na, nb):
     """Returns (problem or None, header, nrows)."""
     a, b = catalogue.atable(na), catalogue.btable(nb)
+    if nb:
+        b[1][0] = None          # a None key on the non-empty side (outer joins must still return that row)
     try:
         v = e['fn'](a, b)
         p1 = [r for r in v]
